@@ -37,6 +37,8 @@ structure PInv (ex : Pid → Prop) (fr : Pid → Option Frame) (w : World) : Pro
   /-- the same for event waiters -/
   e1 : ∀ h l q, (h, l) ∈ w.evWaiters → q ∈ l → ¬ ex q → Await.event h ∈ (w.proc q).awaits
   en : (w.evWaiters.map (·.1)).Nodup ∧ ∀ h l, (h, l) ∈ w.evWaiters → l.Nodup
+  /-- process-end / event-done wake-ups are addressed to a process -/
+  sb : ∀ e ∈ w.ev.pending, e.item.a = aProc ∨ e.item.a = aEvent → e.item.b ≠ 0
   /-- waiters are only registered with scheduled events -/
   es : ∀ h l, (h, l) ∈ w.evWaiters → h ∈ keys w.ev.pending
   /-- a pending process-end wake-up belongs to a process that awaits a process and is no longer registered with it -/
@@ -75,6 +77,9 @@ theorem PInv.congr {ex : Pid → Prop} {fr : Pid → Option Frame} {w w' : World
     (hctr : w.ev.counter ≤ w'.ev.counter)
     (hkeep : ∀ k ∈ keys w.ev.pending, k ∈ keys w'.ev.pending) : PInv ex fr w' where
   ei := hei
+  sb := fun e' he' hk => by
+    obtain ⟨e, hem, _, hi⟩ := he e' he' hk
+    rw [← hi]; exact hp.sb e hem (by rw [hi]; exact hk)
   es := fun h l hm => hkeep h (hp.es h l (by rw [← hw]; exact hm))
   oh := by
     intro e' he' ha p hb hx h hh
@@ -311,7 +316,13 @@ theorem PInv.popWake {ex : Pid → Prop} {fr : Pid → Option Frame} {w w1 : Wor
     obtain ⟨q, hq, rfl⟩ := hx
     rw [heq]; exact ⟨rfl, q, hq, rfl⟩
   have hnp : (aEvent : Nat) ≠ aProc := by decide
-  refine { ei := pushAll_evinv _ hei,
+  refine { sb := fun e he _ => by
+             simp only [pushAll_pending, List.mem_append] at he
+             rcases he with he | he
+             · obtain ⟨_, q, _, hbq⟩ := hnew e he
+               rw [hbq]; exact Nat.succ_ne_zero q
+             · exact hp.sb e (hsub e he) (by assumption),
+           ei := pushAll_evinv _ hei,
            ap := fun x => by rw [procAw_congr hsc]; exact hp.ap x,
            ae := fun x => by rw [evAw_congr hsc]; exact hp.ae x,
            ar := fun x hx => by rw [procAw_congr hsc, evAw_congr hsc]; rw [hpr] at hx; exact hp.ar x hx,
